@@ -91,8 +91,8 @@ structure PairMon where
   reqId : List (String × Nat) := []
   /-- id ↦ decision taken at the destination: none = accepted, some np = rejected(no_ports) -/
   decided : List (Nat × Option Bool) := []
-  /-- payload (hex) ↦ id of the half it was sent into -/
-  sentOn : List (String × Nat) := []
+  /-- payload (hex) ↦ (id, handle name) of the half it was sent into -/
+  sentOn : List (String × Nat × String) := []
   /-- call id ↦ handle name, for receive calls on halves -/
   recvOn : List (String × String) := []
 
